@@ -37,12 +37,48 @@ cb(void *arg, const IMB_SELF_TEST_CALLBACK_DATA *d)
 
 static long nruns;
 
+/* give every ring slot a past: a mixed-suite history with non-zero offsets, all jobs drained */
 static void
-run(const hx_variant *v, int use_auto, uint64_t flo, uint64_t fhi)
+dirty(IMB_MGR *m, hx_rng *g)
 {
-        IMB_MGR *m = alloc_mb_mgr(v->flags);
+        for (int i = 0; i < 300; i++) {
+                hx_spec sp;
+                hx_spec_from_kind(hx_kinds[hx_below(g, (uint32_t) hx_nkinds)], g, &sp);
+                sp.placement = GA_SLACK;
+                hx_job j;
+                if (hx_job_build(m, &sp, i, &j) != 0)
+                        continue;
+                IMB_JOB *slot = IMB_GET_NEXT_JOB(m);
+                hx_job_to_slot(&j, slot);
+                (void) IMB_SUBMIT_JOB(m);
+                hx_job_free(&j);
+                if ((i & 63) == 63) {
+                        while (IMB_FLUSH_JOB(m) != NULL)
+                                ;
+                        ga_reset();
+                }
+        }
+        while (IMB_FLUSH_JOB(m) != NULL)
+                ;
+        ga_reset();
+}
+
+static IMB_MGR *used_mgr;
+static hx_rng dirty_rng;
+
+/* mode bit 2: re-initialise a manager that has a job history instead of a freshly allocated one */
+static void
+run(const hx_variant *v, int mode, uint64_t flo, uint64_t fhi)
+{
+        const int use_auto = mode & 1, reuse = mode & 2;
+        IMB_MGR *m = reuse ? used_mgr : alloc_mb_mgr(v->flags);
+        if (reuse && !m) {
+                m = used_mgr = hx_mgr_new(v);
+        }
         if (!m)
                 return;
+        if (reuse)
+                dirty(m, &dirty_rng);
         imb_self_test_set_cb(m, cb, NULL);
         nev = 0;
         cur_test = 0;
@@ -64,6 +100,7 @@ run(const hx_variant *v, int use_auto, uint64_t flo, uint64_t fhi)
         tr_begin("Run");
         tr_str("variant", v->name);
         tr_str("init", use_auto ? "auto" : "explicit");
+        tr_int("used", reuse ? 1 : 0);
         int faults[128], nf = 0;
         for (int i = 0; i < 128; i++)
                 if (i < 64 ? ((flo >> i) & 1) : ((fhi >> (i - 64)) & 1))
@@ -83,8 +120,10 @@ run(const hx_variant *v, int use_auto, uint64_t flo, uint64_t fhi)
                         evs[i].descr);
         fputc(']', hx_trace);
         tr_end();
-        if (!crashed)
+        if (!crashed && !reuse)
                 free_mb_mgr(m);
+        if (crashed && reuse)
+                used_mgr = NULL;
 }
 
 int
@@ -146,6 +185,16 @@ drv_selftest(int argc, char **argv)
                                         lo &= (1ULL << ntests) - 1;
                                 run(v, 0, lo, hi);
                         }
+                        /* the same on a manager with a history (re-initialisation): fault-free, every
+                         * single entry, a few subsets */
+                        hx_seed(&dirty_rng, seed ^ 0xd1);
+                        used_mgr = NULL;
+                        run(v, 2, 0, 0);
+                        for (int i = 0; i < ntests; i += (subsets > 100 ? 1 : 3))
+                                run(v, 2, i < 64 ? 1ULL << i : 0, i >= 64 ? 1ULL << (i - 64) : 0);
+                        if (used_mgr)
+                                free_mb_mgr(used_mgr);
+                        used_mgr = NULL;
                 }
         }
         fclose(hx_trace);
